@@ -177,12 +177,19 @@ def c_place_dl(mod):
 
 
 class _V(object):
-    """A vertex object with identity-based hash (the default for objects):
-    where it lands in a set depends on its address, i.e. on what the process
-    allocated before."""
+    """A vertex object whose hash depends on how many such objects the
+    process created before (a deterministic stand-in for the address-based
+    default hash): where it lands in a set depends on the history of the
+    process, not on the arguments of the call."""
+    _created = [0]
 
     def __init__(self, name):
         self.name = name
+        _V._created[0] += 1
+        self._h = hash(("rigverif", _V._created[0]))
+
+    def __hash__(self):
+        return self._h
 
     def __repr__(self):
         return "V(%s)" % self.name
